@@ -442,3 +442,47 @@ def deck_mapping(c):
     c.reset_trace()
     c.call((dm, 'write'), c.get('address'), wdata, c.ext('write_ok'), c.ext('write_failed'))
     c.ensure('write-forwarded-to-mapped-address', "raised is None and len(trace) == 1 and sent('memh.write')[0][1][0:3] == (mgr, base + address, wdata)")
+
+
+def _read_reentrant(event):
+    @contract('C06', 'read.reentrant.%s' % event, READ_F,
+              clause='afterwards further requests are still served, also from inside the notification: a read of the same memory issued from the '
+                     'success / failure notification of the previous one is accepted and transmitted, and no pending-request record is left behind',
+              bounded='one 3-byte read; new 2-byte read issued from the notification')
+    def k(c):
+        cf = c.ext('cf')
+        memh = c.new(MEM + ':Memory', cf)
+        c.let('memh', memh)
+        c.int('mid', 0, 255)
+        mem = c.new(ELT, c.get('mid'), 0x18, 0x10000, memh)
+        c.let('mem', mem)
+        accepted = []
+
+        def again(*_a):
+            if not accepted:
+                accepted.append(c.invoke((memh, 'read'), mem, 500, 2))
+            return None
+        ok = c.ext('note_read', returns={'()': again})
+        bad = c.ext('note_read_failed', returns={'()': again})
+        c.invoke((c.getfield(memh, 'mem_read_cb'), 'add_callback'), ok)
+        c.invoke((c.getfield(memh, 'mem_read_failed_cb'), 'add_callback'), bad)
+        c.reset_trace()
+        c.int('addr', 0, 400)
+        M = c.bytes('M', 3)
+        c.call((memh, 'read'), mem, c.get('addr'), 3)
+        c.require('raised is None')
+        c.snapshot('rq', "sent('cf.send_packet')[-1][1][0]")
+        c.snapshot('rdata', "bytes(rq.data[0:5]) + bytes([%d]) + M" % (0 if event == 'success' else 4))
+        pk = c.new(STK + ':CRTPPacket', (4 << 4) | 1, c.get('rdata'))
+        c.call((memh, '_new_packet_cb'), pk)
+        c.ensure('no-exception', 'raised is None')
+        c.ensure('notified-once', "len(sent('note_read')) + len(sent('note_read_failed')) == 1")
+        c.let('accepted', accepted[0] if accepted else None)
+        c.ensure('read-from-the-notification-accepted', 'accepted is True')
+        c.ensure('read-from-the-notification-transmitted', "len(sent('cf.send_packet')) == 2 and bytes(sent('cf.send_packet')[-1][1][0].data) == pack('<BIB', mid, 500, 2)")
+        c.ensure('exactly-the-new-request-is-pending', 'len(memh._read_requests) == 1 and memh._read_requests[mid].addr == 500')
+    return k
+
+
+for _e in ('success', 'failure'):
+    _read_reentrant(_e)
